@@ -146,10 +146,11 @@ theorem wf_sound_consts (bytes : List Nat) (consts : List CKind) (h : wfChunk by
   exact fun a ha => (hall a ha).consts
 
 /-- **balance**: no configuration reachable from the unit's entry is faulty — the instruction
-pointer is on an instruction of the unit, a builder instruction never finds its builder stack empty
-(`MissingSequenceBuilder`, `MissingStringBuilder`), a backward jump stays inside the chunk, and a
-`Return` leaves no builder open. (Model: unwinding restores the builder depths of the handler's
-`TryStart`; see Model/AbsVM.lean.) -/
+pointer is on an instruction of the unit (so control never runs past the unit's end), a builder
+instruction never finds its builder stack empty (`MissingSequenceBuilder`, `MissingStringBuilder`),
+a backward jump stays inside the chunk. Builder and try depths agree along every edge
+(`wf_jump_depth_exact`); a `Return` may leave builders open — `pop_frame` discards them (fix 97373d1),
+as unwinding to a handler discards those opened since its `TryStart` (Model/AbsVM.lean). -/
 theorem wf_sound_balance (bytes : List Nat) (consts : List CKind) (h : wfChunk bytes consts = true)
     (base need : Nat) (l : List Ann) (hu : (base, need, l) ∈ chunkUnits bytes)
     (c : Cfg) (hr : Reach l ⟨base, 0, 0, []⟩ c) : ¬ Fault l c := by
@@ -214,7 +215,7 @@ theorem wf_jump_depth_exact (bytes : List Nat) (consts : List CKind) (h : wfChun
     ∃ ps, succPcs a = some ps ∧ ∀ p ∈ ps, ∃ b ∈ l, b.pc = p ∧ b.d = some d := by
   have hf := wfChunk_units bytes consts h _ hu
   obtain ⟨a0, _, _, _, _, hall⟩ := hf.entry
-  obtain ⟨d', ps, he, hs, _, hflow⟩ := (hall a ha).flow d hd
+  obtain ⟨d', ps, he, hs, hflow⟩ := (hall a ha).flow d hd
   have hdd : d' = d := by
     rcases hop with hop | hop <;> simp [applyEff, hop] at he <;> exact he.symm
   subst hdd
@@ -239,13 +240,16 @@ example : (chunkUnits [0, 2, 27, 1, 2, 0, 0, 0, 18, 0, 0, 5, 1, 4, 2, 58, 4, 3, 
 
 /-- the verifier rejects: the real chunk of `|| 42` / `print 'hello'` (finding F-C05-4: a frame that
 no `Function` instruction delimits), a jump into the middle of an instruction, a register beyond the
-frame, a constant of the wrong kind, a `Return` inside an open sequence -/
+frame, a constant of the wrong kind, a join reached with and without an open sequence (the shape of
+`break` inside a list literal, finding F-C05-5) — while a `Return` inside an open sequence is accepted
+(the VM discards the builder, fix 97373d1) -/
 theorem wf_rejects_witnesses :
     wfChunk [0, 5, 0, 2, 7, 1, 42, 62, 1, 12, 2, 0, 11, 4, 1, 60, 1, 2, 3, 1, 0, 62, 1] [.str, .str] = false
     ∧ wfChunk [0, 2, 55, 1, 0, 7, 1, 42, 62, 1] [] = false
     ∧ wfChunk [0, 2, 2, 2, 62, 1] [] = false
     ∧ wfChunk [0, 2, 10, 1, 0, 62, 1] [.str] = false
-    ∧ wfChunk [0, 2, 19, 1, 62, 1] [] = false := by decide
+    ∧ wfChunk [0, 2, 57, 1, 2, 0, 19, 1, 62, 1] [] = false
+    ∧ wfChunk [0, 2, 19, 1, 62, 1] [] = true := by decide
 
 /-! ## Register allocator (`frame.rs`) -/
 
